@@ -856,6 +856,7 @@ class EnterServerThreadQ(EnterServer):
     in_type = 'thread'
     canaries = ()
 
-UNITS = [EnterServer, EnterServerThreadQ, SimpleStart, ThreadStart, SimpleStop, ThreadStop, CompoundStart, EnsembleStart, SwitchStart, CompoundStop, SwitchStop, SequentialStop,
+from contracts.ctors import SERVLET_CTORS      # noqa: E402
+UNITS = list(SERVLET_CTORS) + [EnterServer, EnterServerThreadQ, SimpleStart, ThreadStart, SimpleStop, ThreadStop, CompoundStart, EnsembleStart, SwitchStart, CompoundStop, SwitchStop, SequentialStop,
          ServerExit, ServerExitThreadQ, AServerExit, OnboardUnit, WorkerRun]
 SCENARIOS = [('', 'replay/scenarios/c11_init_failure_cleanup.py'), ('', 'replay/scenarios/c11_abandoned_stream_exit.py')]
